@@ -1,0 +1,93 @@
+//go:build verif
+
+package mvp7_0
+
+import (
+	"github.com/teivah/majorana/proc/comp"
+	"github.com/teivah/majorana/risc"
+)
+
+func verifSnapshot(ctx *risc.Context, m *msi, ccs []*cacheController) comp.VerifSnap {
+	s := comp.VerifSnap{LineSize: l1DCacheLineSize, Memory: ctx.Memory}
+	for _, cc := range ccs {
+		s.Cores = append(s.Cores, comp.VerifCore{
+			Lines:     comp.VerifLines(cc.l1d.Lines()),
+			Resident:  comp.VerifLines(cc.l1d.ExistingLines()),
+			ReadBusy:  !cc.read.IsStart(),
+			WriteBusy: !cc.write.IsStart(),
+			SnoopBusy: !cc.snoop.IsStart(),
+		})
+	}
+	for e, st := range m.states {
+		s.States = append(s.States, comp.VerifState{Core: e.id, Addr: int32(e.alignedAddr), State: st})
+	}
+	for r, info := range m.commands {
+		s.Commands = append(s.Commands, comp.VerifCommand{Core: r.id, Addr: int32(r.alignedAddr), Request: r.request, Done: info.doneFlag})
+	}
+	for a, sem := range m.pendings {
+		rd, wr := sem.VerifCounts()
+		s.Sems = append(s.Sems, comp.VerifSem{Addr: int32(a), Read: rd, Write: wr})
+	}
+	return s
+}
+
+// VerifSnapshot returns a read-only view of the coherence state.
+func (m *CPU) VerifSnapshot() comp.VerifSnap {
+	return verifSnapshot(m.ctx, m.msi, m.cacheControllers)
+}
+
+// VerifRig is the cache controllers + MSI directory + memory without a pipeline.
+type VerifRig struct {
+	ctx *risc.Context
+	msi *msi
+	ccs []*cacheController
+}
+
+// NewVerifRig builds the coherence machinery of a machine with the given cores.
+func NewVerifRig(memoryBytes, cores int) *VerifRig {
+	ctx := risc.NewContext(false, memoryBytes, true)
+	mmu := newMemoryManagementUnit(ctx)
+	m := newMSI()
+	r := &VerifRig{ctx: ctx, msi: m}
+	for i := 0; i < cores; i++ {
+		r.ccs = append(r.ccs, newCacheController(i, ctx, mmu, m))
+	}
+	return r
+}
+
+func (r *VerifRig) Context() *risc.Context { return r.ctx }
+func (r *VerifRig) Cores() int             { return len(r.ccs) }
+
+// Snoop steps the snoop coroutine of one core (CPU.Run does it for every core, in core order, before the execute units).
+func (r *VerifRig) Snoop(core int) { r.ccs[core].snoop.Cycle(struct{}{}) }
+
+// Read steps a read request of one core by one cycle.
+func (r *VerifRig) Read(core, cycle int, addrs []int32) ([]int8, bool) {
+	resp := r.ccs[core].read.Cycle(ccReadReq{cycle, addrs})
+	return resp.data, resp.done
+}
+
+// Write steps a write request of one core by one cycle.
+func (r *VerifRig) Write(core, cycle int, addrs []int32, data []int8) bool {
+	return r.ccs[core].write.Cycle(ccWriteReq{cycle, addrs, data}).done
+}
+
+// Cancel is what a pipeline flush does to the core's in-flight request.
+func (r *VerifRig) Cancel(core int) { r.ccs[core].flush() }
+
+// Idle tells whether the core has no request or snoop work in progress.
+func (r *VerifRig) Idle(core int) bool {
+	cc := r.ccs[core]
+	return cc.read.IsStart() && cc.write.IsStart() && cc.snoop.IsStart()
+}
+
+// Export is the end-of-run write-back; it returns the cycles it costs.
+func (r *VerifRig) Export() int {
+	n := 0
+	for _, cc := range r.ccs {
+		n += cc.export()
+	}
+	return n
+}
+
+func (r *VerifRig) Snapshot() comp.VerifSnap { return verifSnapshot(r.ctx, r.msi, r.ccs) }
